@@ -88,7 +88,7 @@ def has_grad(k, X):
         return False
 
 
-def check_tree(ck, t, layout, ntheta, rng):
+def check_tree(ck, t, layout, ntheta, rng, vs_hists=()):
     ids = leaves_of(t)
     tag = t["op"] + ":" + "+".join(ids)
     try:
@@ -206,6 +206,27 @@ def check_tree(ck, t, layout, ntheta, rng):
             if excess.max() > 0:
                 ck.violation("input-gradient-vs-fd:%s" % tag, {"tree": t, "j": j, "excess": float(excess.max())}, replay={"tree": t})
                 break
+    # ---- kernel objects are functions of the VALUES of their arguments (spec/ValueSemantics.tla): the caller reuses and
+    # overwrites its arrays between calls (work arrays, in-place finite-difference steps, equal-shape slices in a loop)
+    if vs_hists:
+        import valuesem
+        vals = {"c1": Y, "c2": rng.uniform(0.0, 1.0, size=Y.shape), "c3": rng.uniform(0.0, 1.0, size=Y.shape)}
+        fresh = build(t)
+        callables = [("k(X,.)", lambda A: k(X, A), lambda A: fresh(X, A)), ("k(.,X)", lambda A: k(A, X), lambda A: fresh(A, X))]
+        if kk is not None:
+            callables.append(("k_and_deriv(X,.)", lambda A: k.k_and_deriv(X, A), lambda A: fresh.k_and_deriv(X, A)))
+            callables.append(("k_and_deriv(.,X)", lambda A: k.k_and_deriv(A, X), lambda A: fresh.k_and_deriv(A, X)))
+        for cname, call, fcall in callables:
+            bad = None
+            for h in vs_hists:
+                ck.count()
+                bad = valuesem.replay(h, vals, call, fcall, tol=1e-11)
+                if bad:
+                    ck.violation("value-semantics:%s:%s:%s" % (cname, bad[0][0], tag), {"tree": t, "history": h, "step": bad[0][1], "op": bad[0][2]},
+                                 replay={"tree": t})
+                    break
+            if bad:
+                break
     # ---- declared spin symmetry: exchanging the alpha and beta feature blocks leaves k unchanged
     if t["op"] == "leaf" and hasattr(k, "alpha_ind"):
         Xs, Ys = X.copy(), Y.copy()
@@ -241,8 +262,9 @@ def dftkernel_checks(ck, rng):
 def worker(job):
     ck = Check("C15", "exploration")
     rng = np.random.default_rng(job["seed"])
-    for t, layout, ntheta in job["trees"]:
-        check_tree(ck, t, layout, ntheta, rng)
+    for n, (t, layout, ntheta) in enumerate(job["trees"]):
+        vs = job.get("vs_hists", ()) if (t["op"] not in ("sum", "prod") or n % 4 == 0) else ()
+        check_tree(ck, t, layout, ntheta, rng, vs_hists=vs)
     return {"violations": ck.violations, "evaluations": ck.evaluations, "distinct": sorted(ck.distinct)}
 
 
@@ -291,7 +313,9 @@ def main():
         keep = [t for t in trees if t[0]["op"] not in ("sum", "prod")]
         binary = [trees[i] for i in idx if trees[i][0]["op"] in ("sum", "prod")][:1400]
         trees = keep + binary
-    jobs = [{"trees": trees[k::64], "seed": ck.seed + k} for k in range(64)]
+    import valuesem
+    vs_hists = valuesem.model_and_histories(ck, want=6 if quick else 40)
+    jobs = [{"trees": trees[k::64], "seed": ck.seed + k, "vs_hists": vs_hists} for k in range(64)]
     for res in run_workers(os.path.abspath(__file__), jobs, nproc=16, timeout=3000):
         if "crash" in res:
             raise MachineryError("worker crashed: %s\n%s" % (res["crash"], res.get("tb")))
